@@ -63,7 +63,7 @@ type expEvent struct {
 
 // fertRef: amounts per the fertiliser table, the applied quantity and the global fertilisation factor
 func fertRef(sc *Scenario, e *FertEvent) (ndir, nh4, nfast, nslow float64, ok bool) {
-	row := fertRow(e.Type)
+	row := sc.fertRowOf(e.Type)
 	if row == nil {
 		return 0, 0, 0, 0, false
 	}
